@@ -657,6 +657,11 @@ def lifecycle():
     emit_nat("rcvtimeoNoneWaits", len(re.findall(r"None => self\.queue\.pop\(\)\.await\?", ai2)))
     dl = strip_comments(src("core/src/socket/dealer_socket.rs"))
     emit_nat("dealerQueuesOnlyReturnedMessages", 1 if re.search(r"Err\(\(returned, ZmqError::ResourceLimitReached\)\) => \{\s*self\.queue_message_or_error", dl) and re.search(r"try_route_sync\(zmtp_frames_for_logical_message\)", dl) else 0)
+    # PUSH: frames sent one by one with MORE are held until the last one and routed as one message
+    ps = strip_comments(src("core/src/socket/push_socket.rs"))
+    emit_nat("pushHoldsPartsUntilLast", 1 if re.search(r"let more = msg\.is_more\(\);\s*parts\.push\(msg\);\s*if more \{\s*return Ok\(\(\)\);\s*\}\s*std::mem::replace\(&mut \*parts, FrameBatch::new\(\)\)", ps)
+             and re.search(r"self\.send_with_timeout\(fb, wait_for_peer, sndtimeo\)\.await", ps) else 0)
+    emit_nat("pushOverlongMessageIsDroppedWhole", 1 if re.search(r"if parts\.len\(\) >= crate::message::MAX_USER_FRAMES_PER_MESSAGE \{\s*\*parts = FrameBatch::new\(\);\s*return Err", ps) else 0)
     # DEALER: a send queues behind older pending messages; the processor keeps a failed message at the FRONT and does not
     # wait inside the send; the backlog counter is raised with the push and lowered only after a successful hand-over
     emit_nat("dealerSendQueuesBehindBacklog", 1 if re.search(r"if self\.pending_backlog\.load\([^)]*\) > 0 \{\s*return self\.queue_message_or_error\(", dl) else 0)
